@@ -19,7 +19,7 @@ Statements:
   ["text", s] ["out", e]
   ["if", [[cond, body]...], else_body|None]
   ["for", target_names, iter, body, else_body|None, filter|None, recursive]
-  ["set", name, e] ["setns", ns, attr, e] ["setblock", name, body]
+  ["set", name, e] ["setns", ns, attr, e] ["setblock", name, body(, [filter names])]
   ["with", [[name, e]...], body]
   ["macro", name, [[param, default|None]...], body]
   ["callblock", [[param, default|None]...], call_expr, body]
@@ -242,7 +242,7 @@ def ps(body, sx: Syntax = DEFAULT) -> str:
         elif k == "setns":
             out.append(B(f"set {st[1]}.{st[2]} = {pe(st[3])}"))
         elif k == "setblock":
-            out.append(B(f"set {st[1]}"))
+            out.append(B(f"set {st[1]}" + "".join(" | " + f for f in (st[3] if len(st) > 3 else []))))
             out.append(ps(st[2], sx))
             out.append(B("endset"))
         elif k == "with":
